@@ -533,6 +533,14 @@ void PubSubIqBase::toXmlElementFromChild(QXmlStreamWriter *writer) const
     // handled by a QXmppPubSubSubscription.
     if (d->queryType == Subscription) {
         subscription().value_or(QXmppPubSubSubscription()).toXml(writer);
+
+        // form inside following <options/>
+        if (auto form = d->dataForm) {
+            form->setType(type() == QXmppIq::Result ? QXmppDataForm::Result : QXmppDataForm::Submit);
+            writer->writeStartElement(QSL65("options"));
+            form->toXml(writer);
+            writer->writeEndElement();
+        }
     } else {
         // write query type
         writer->writeStartElement(toString65(PUBSUB_QUERIES.at(size_t(d->queryType))));
